@@ -160,8 +160,10 @@ class World(object):
     def __init__(self, dt=1.0 / 64, mtu=1500, n_clients=1, order="cs", latency=1, chooser=None,
                  monitors=(), server_cfg=None, client_cfg=None, key_offset=0, fates=(), fate_filter=None,
                  pinned=True, start_time=1000.0, client_addrs=None, rnd_seed=0, token_source=None,
-                 connect_callback=False, autoconnect=True, server_send="twisted", root_index=None, hash_states=False):
+                 connect_callback=False, autoconnect=True, server_send="twisted", root_index=None, hash_states=False,
+                 on_connected=None):
         self.dt = dt
+        self.on_connected = on_connected   # fn(world, client_end, ok) run INSIDE the client's connect callback
         self.hash_states = hash_states
         self.mtu = mtu
         self.order = order
@@ -288,9 +290,11 @@ class World(object):
         if before_connect:
             before_connect(ce.client)
         cb = None
-        if self.connect_callback:
+        if self.connect_callback or self.on_connected:
             def cb(ok, ce=ce):
                 ce.connect_cb.append((self.vt.now, ok))
+                if self.on_connected:
+                    self.on_connected(self, ce, ok)
         n0 = len(self.sockets)
         ce.client.connect(SERVER_ADDR, cb)
         ce.sock = self.sockets[n0]
